@@ -23,6 +23,9 @@ type writerScenario struct {
 }
 
 func mallocSize(st *sim.Stream, written int) int {
+	if bigValuesProfile && st.Chance(1, 3) {
+		return 33000 + st.Choose(30000) // lands in the 64 KiB buffer class
+	}
 	switch st.Pick(6, 4, 3, 3, 3, 2, 1) {
 	case 0:
 		return []int{1, 0, 2, 3, 4, 8, 14, 6}[st.Choose(8)]
